@@ -30,10 +30,6 @@ FINDINGS = [
               'decoded (oer.py KnownMultiplierStringType used for UTF8String)',
          witness=dict(kind='roundtrip', spec=HDR + 'A ::= UTF8String (SIZE (3))' + END, codec='oer', type='A',
                       value='åäö')),
-    dict(key='oer-integer-extensible-treated-as-constrained', props=['C01', 'C06'],
-         text='OER INTEGER (0..255, ...): the extensible constraint still selects the unsigned form, value -1 (legal through '
-              'the extension marker) is mangled (oer.py:582-589)',
-         witness=dict(kind='roundtrip', spec=HDR + 'A ::= INTEGER (0..255, ...)' + END, codec='oer', type='A', value=-1)),
     dict(key='ber-extensible-choice-member-swallows-next', props=['C01'],
          text='BER/DER: an untagged extensible CHOICE that is an OPTIONAL member of a SEQUENCE (or any member of a SET) takes the '
               "TLV of the following member for an unknown extension alternative: SEQUENCE { c CHOICE { x [0] INTEGER, ... } OPTIONAL, f BIT STRING } "
@@ -159,11 +155,6 @@ FINDINGS = [
               'c0 40 00 instead of c0 40 01 00 (the repository tests pin the deviating bytes)',
          witness=dict(kind='encode_expect', spec=HDR + 'A ::= SEQUENCE { a BOOLEAN, ..., n NULL }' + END, codec='uper', type='A',
                       value={'a': True, 'n': None}, expected_hex='c0400100')),
-    dict(key='oer-bmp-universal-string-fixed-size-has-length', props=['C06'],
-         text='OER BMPString and UniversalString with a fixed SIZE are written with a length determinant; they are known-multiplier types '
-              "(X.696 27) and a fixed size is encoded without one: BMPString (SIZE (1)) value 'a' gives 02 0061 instead of 0061",
-         witness=dict(kind='encode_expect', spec=HDR + 'A ::= BMPString (SIZE (1))' + END, codec='oer', type='A', value='a',
-                      expected_hex='0061')),
     dict(key='oer-addition-group-members-are-separate-additions', props=['C06'],
          text='OER: the members of an extension addition group get one presence bit and one open type each; X.696 16 treats a group as ONE '
               'extension addition encoded as a SEQUENCE: SEQUENCE { a BOOLEAN, ..., [[ b NULL, c BOOLEAN OPTIONAL ]], d NULL } value '
